@@ -18,8 +18,15 @@ def _vec(v, dtype):
     return None if v is None else torch.tensor(v, dtype=getattr(torch, dtype))
 
 
+def other_dtype(dtype: str) -> str:
+    return "float32" if dtype == "float64" else "float64"
+
+
 def make(spec: dict, dtype: str):
     name = spec["name"]
+    if spec.get("vec_other_dtype") and name in ("UPGrad", "DualProj", "GradDrop"):
+        # the configured vector has the OTHER floating dtype than the matrices (accepted by these three aggregators)
+        dtype = other_dtype(dtype)
     if name in ("UPGrad", "DualProj"):
         kw = {}
         for k in ("norm_eps", "reg_eps"):
